@@ -973,7 +973,13 @@ func checkRotate(o *Out, hs gts.Sequence, l gts.Location, L, n int, res string) 
 		}
 		f2, _ := findFeature(two.Features(), "f")
 		f1, _ := findFeature(one.Features(), "f")
-		if !fullLen && !denEq(dedupAdj(den(f2.Loc)), dedupAdj(den(f1.Loc))) {
+		// a feature that became one full-length range after the first rotation is
+		// re-based to 1..L by the second (Ranged.Normalize), like any full-length range
+		midFull := false
+		if r, ok := stripC(g.Loc).(gts.Ranged); ok && r.End-r.Start == L {
+			midFull = true
+		}
+		if !fullLen && !midFull && !denEq(dedupAdj(den(f2.Loc)), dedupAdj(den(f1.Loc))) {
 			op := func(x gts.Location) gts.Location { return x.Expand(0, mod(b)).Normalize(L) }
 			if k1After(g.Loc, op) || k1After(l, func(x gts.Location) gts.Location { return x.Expand(0, mod(n+b)).Normalize(L) }) {
 				o.KnownFinding("K1")
